@@ -40,7 +40,7 @@ UNITS = standard_units("C09") + [
 VERIFIED_CALLEES = ()
 LEVEL = "other"
 TECHNIQUE = "contract-based deductive verification of per-operation frame conditions (context variables restored on every exit; pending print_config request), VCs from the real AST + bounded comparison of operation histories with fresh parsers"
-LEVEL_TEXT = "under construction"
+LEVEL_TEXT = 'Reduction: if every operation restores the state it touches, outcomes cannot depend on the history (induction on its length). Proved: each of the eight @contextmanager helpers that set a ContextVar restores it on the normal and on the exceptional exit; print_config_if_requested leaves no pending request behind on any exit (this refuted the shipped code; fixed together with error() dropping a pending request). Bounded only: 3.7k operation histories compared step by step with fresh parsers in fresh processes.'
 LEVEL_NOTE = "under construction"
 EXPLANATION = "under construction"
 ASSUMPTIONS = []
